@@ -5,6 +5,8 @@ Theorems about `FdtdxModel/C38.lean` (+ the grid model of C37), any cell counts,
 
   C38_uniformEdges_spec        the resolved axis has n+1 edges, edge i = (center − n·h/2) + h·i, every width = h
   C38_uniformEdges_valid       … and passes the RectilinearGrid constructor (h > 0, n ≥ 1)
+  C38_center_equivariant / C38_from_length_center   shifting the policy centre shifts all edges, changes no cell count;
+                               a volume given by its length gets round(length/h) cells whatever the centre
   C38_three_descriptions_same_edges   uniform policy, quasi-uniform policy with that spacing on the axis (even n) and the
                                explicit grid built from those edges resolve to THE SAME edge list
   C38_quasi_rejects_odd / C38_policy_rejects  the error branches (odd count for the quasi policy only, h ≤ 0, n ≤ 0)
@@ -83,6 +85,39 @@ theorem C38_uniformEdges_valid (c h : K) (n : Nat) (hh : 0 < h) (hn : 1 ≤ n) :
     have hw := (C38_uniformEdges_spec c h n).2.2.1 i (by omega)
     unfold width at hw
     linarith
+
+/-- **centre equivariance**: moving the policy's `center` by `t` moves every edge by `t` and changes no cell count — in
+particular the number of cells of a volume declared by its physical length does not depend on the centre -/
+theorem C38_center_equivariant (c t h : K) (n : Nat) :
+    uniformEdges (Nat.cast : Nat → K) (c + t) h n = (uniformEdges (Nat.cast : Nat → K) c h n).map (· + t) ∧
+    (uniformEdges (Nat.cast : Nat → K) (c + t) h n).length = (uniformEdges (Nat.cast : Nat → K) c h n).length := by
+  constructor
+  · unfold uniformEdges
+    rw [List.map_map]
+    apply List.map_congr_left
+    intro i _
+    simp only [Function.comp]
+    ring
+  · rw [uniformEdges_length, uniformEdges_length]
+
+/-- a volume declared by its length resolves, under either policy and for ANY centre, to the grid of
+`round(length/spacing)` cells centred on `center` — the same edges as for centre 0, shifted -/
+theorem C38_from_length_center (rnd : K → Int) (c h len : K) (hh : 0 < h) (n : Nat) (hn : 1 ≤ n)
+    (hr : rnd (len / h) = (n : Int)) :
+    resolveUniformFromLength (Nat.cast : Nat → K) rnd c h len = .ok ((uniformEdges Nat.cast 0 h n).map (· + c)) ∧
+    (n % 2 = 0 → resolveQuasiFromLength (Nat.cast : Nat → K) rnd c h len
+        = .ok ((uniformEdges Nat.cast 0 h n).map (· + c))) := by
+  have he : uniformEdges (Nat.cast : Nat → K) c h n = (uniformEdges (Nat.cast : Nat → K) 0 h n).map (· + c) := by
+    have := (C38_center_equivariant (0 : K) c h n).1
+    rwa [zero_add] at this
+  constructor
+  · unfold resolveUniformFromLength cellsFromLength
+    rw [hr]; unfold resolveUniformAxis
+    rw [if_neg (by simp [hh]), if_neg (by omega), ← he]; simp
+  · intro hev
+    unfold resolveQuasiFromLength cellsFromLength
+    rw [hr]; unfold resolveQuasiAxis
+    rw [if_neg (by simp [hh]), if_neg (by omega), if_neg (by omega), ← he]; simp
 
 /-! ### the three descriptions -/
 
